@@ -6,6 +6,7 @@ open Cgreen.PerTest
 def parseFAct (tok : String) : Option (List FAct) :=
   match tok with
   | "P" => some [.check true]
+  | "QI" => some [.check true]      -- the test checks that it finds SIGINT in its default disposition
   | "F" => some [.check false]
   | "MP" => some []                 -- honoured never_expect: one pass at tally (state-independent, not modelled here)
   | "MF" => some [.leave]
